@@ -48,6 +48,10 @@ type packStats struct {
 // case whose segment trace differs. refWrap turns the pack source into the reference program (identity
 // for plain JS). property-specific signature prefix in sigPrefix.
 func runPacks(r *Run, cases []packCase, packSize int, variants []packVariant, sigPrefix string, refOf func(src string) string, st *packStats) {
+	runPacksWith(r, cases, packSize, variants, sigPrefix, refOf, st, packSource)
+}
+
+func runPacksWith(r *Run, cases []packCase, packSize int, variants []packVariant, sigPrefix string, refOf func(src string) string, st *packStats, srcOf func([]packCase) string) {
 	pool := r.Pool()
 	byID := map[string]packCase{}
 	for _, c := range cases {
@@ -84,7 +88,7 @@ func runPacks(r *Run, cases []packCase, packSize int, variants []packVariant, si
 	}
 	parallel(len(packs), pool.Size(), func(pi int) {
 		pk := packs[pi]
-		src := packSource(pk)
+		src := srcOf(pk)
 		if refOf != nil {
 			src = refOf(src) // wrapper applied to the program itself (input of esbuild and reference alike)
 		}
@@ -96,9 +100,44 @@ func runPacks(r *Run, cases []packCase, packSize int, variants []packVariant, si
 			if len(errs) > 0 {
 				atomic.AddInt64(&st.skippedVariants, 1)
 				// a whole pack failing to compile is itself suspicious: find the culprit case and report it
+				// (not for lowering, where an error for an untransformable feature is legitimate: retry without the culprits)
+				if sigPrefix == "lower" {
+					var keep []packCase
+					for _, c := range pk {
+						one := srcOf([]packCase{c})
+						if refOf != nil {
+							one = refOf(one)
+						}
+						if _, e2 := v.Compile(one); len(e2) == 0 {
+							keep = append(keep, c)
+						}
+					}
+					if len(keep) > 0 && len(keep) < len(pk) {
+						sub := srcOf(keep)
+						if refOf != nil {
+							sub = refOf(sub)
+						}
+						if out2, e3 := v.Compile(sub); len(e3) == 0 {
+							// run this reduced pack on its own
+							if pr, err := pool.ExecPair(progScript(sub), progScript(out2), true, false); err == nil {
+								atomic.AddInt64(&st.caseRuns, int64(len(keep)))
+								if !pr.Equal && !pr.Inconclusive {
+									for _, d := range pr.Diffs {
+										id := strings.Trim(d.Seg, `"`)
+										if c, ok := byID[id]; ok {
+											r.Violation(sigPrefix+":"+c.Sig, fmt.Sprintf("behaviour differs under %s: %s  ref=%v out=%v", v.Name, trunc(c.Body, 300), trunc(fmt.Sprint(d.A), 200), trunc(fmt.Sprint(d.B), 200)),
+												map[string]interface{}{"case": c, "variant": v.Name, "ref_trace": d.A, "out_trace": d.B, "pack_input": sub, "pack_output": out2})
+										}
+									}
+								}
+							}
+						}
+					}
+					continue
+				}
 				if len(pk) > 1 {
 					for _, c := range pk {
-						one := packSource([]packCase{c})
+						one := srcOf([]packCase{c})
 						if refOf != nil {
 							one = refOf(one)
 						}
@@ -148,7 +187,7 @@ func runPacks(r *Run, cases []packCase, packSize int, variants []packVariant, si
 				// the whole output does not parse: find the case(s) whose own output is invalid
 				found := 0
 				for _, c := range pk {
-					one := packSource([]packCase{c})
+					one := srcOf([]packCase{c})
 					if refOf != nil {
 						one = refOf(one)
 					}
@@ -182,7 +221,7 @@ func runPacks(r *Run, cases []packCase, packSize int, variants []packVariant, si
 					continue
 				}
 				// confirm alone
-				single := packSource([]packCase{c})
+				single := srcOf([]packCase{c})
 				if refOf != nil {
 					single = refOf(single)
 				}
